@@ -310,6 +310,44 @@ pub fn run(ctx: &Ctx) -> (Stats, Report) {
     }
     st.section("binary_boundary_run_lengths", &mut mark);
 
+    // 1d: long inputs / pictures with a multi-byte character across every byte offset: after a
+    // valid prefix and a wrong separator, after a valid prefix and the right separator, after
+    // nothing; the same fillers inside the picture
+    {
+        let maxn: u64 = if ctx.thorough { 6000 } else { 1100 };
+        let s = par_sweep(maxn + 1, 8, |range, st| {
+            for n in range {
+                let n = n as usize;
+                for wide in ["é", "€", "😀"] {
+                    let fill = ["a", " ", "7"][n % 3].repeat(n);
+                    let cases = [
+                        ("YYYY-MM-DD".to_string(), format!("2024x{fill}{wide}{}", "b".repeat(20))),
+                        ("YYYY/MM/DD HH24:MI:SS".to_string(), format!("2024/02-{fill}{wide}")),
+                        ("HH24:MI:SS.FF".to_string(), format!("12:30{fill}{wide}00")),
+                        ("DD HH24:MI".to_string(), format!("{fill}{wide}")),
+                        (format!("YYYY{}{wide}MM", " ".repeat(n)), "2021 07".to_string()),
+                        (format!("{}{wide}", "-".repeat(n % 37)), format!("{fill}{wide}")),
+                    ];
+                    for (pic, text) in cases {
+                        match check_text(&pic, &text) {
+                            Ok(c) => {
+                                st.evaluations += c as u64;
+                                st.nontrivial_enum += c as u64;
+                                st.class("long-text-with-multibyte-char-at-every-offset");
+                            }
+                            Err(m) => {
+                                st.fail(n as u64, Case::new(P, "text", vec![], vec![pic, text]), format!("filler length {n}: {}", m.chars().rev().take(200).collect::<String>().chars().rev().collect::<String>()));
+                                return;
+                            }
+                        }
+                    }
+                }
+            }
+        });
+        st.merge(s);
+    }
+    st.section("long_non_ascii_texts", &mut mark);
+
     // 2a: structured inputs from the constructive speller (valid lenient spellings and
     // single-component perturbations of all six types), optionally mutated further: these get
     // past the first fields and reach the cross-checks at the end of parsing
@@ -500,7 +538,7 @@ pub fn run(ctx: &Ctx) -> (Stats, Report) {
     st.section("operation_table_extreme_operands", &mut mark);
 
     let rep = Report {
-        rule: format!("Oracle: catch_unwind - every call returns (a value or an Error). (1) every string up to length {plen} over the picture alphabet as a picture x fixed inputs, and every string up to length {ilen} over a {}-symbol input alphabet (digits, signs, punctuation, letters, tab, newline, NUL, multi-byte characters) as an input x {} fixed pictures, through Formatter::try_new, T::parse, Formatter::parse of all six types and format of 14 boundary values into a String sink (an inapplicable field must surface as Err from the sink, not a panic); (2) proptest grammar pictures of 0..=40 tokens with blank runs up to 600 and random letter case x inputs obtained by formatting a pool value and applying 0..3 mutations (replace / insert / delete / duplicate a character, splice a digit run, a sign, a multi-byte character, control whitespace, truncate); (3) every row of the {}-row operation table x pool values x extreme scalars (i32::MIN, u32::MAX, NaN, infinities, subnormals, 1e300) and proptest-generated scalars. Run under the release profile and under a profile with overflow checks and debug assertions. Non-trivial = the picture compiles and the input is non-empty, or a row with an extreme scalar operand.", INPUT_ALPHABET.len(), FIXED_PICTURES.len(), ops.len()),
+        rule: format!("Oracle: catch_unwind - every call returns (a value or an Error). (1) every string up to length {plen} over the picture alphabet as a picture x fixed inputs, and every string up to length {ilen} over a {}-symbol input alphabet (digits, signs, punctuation, letters, tab, newline, NUL, multi-byte characters) as an input x {} fixed pictures, through Formatter::try_new, T::parse, Formatter::parse of all six types and format of 14 boundary values into a String sink (an inapplicable field must surface as Err from the sink, not a panic); (2) proptest grammar pictures of 0..=40 tokens with blank runs up to 600 and random letter case x inputs obtained by formatting a pool value and applying 0..3 mutations (replace / insert / delete / duplicate a character, splice a digit run, a sign, a multi-byte character, control whitespace, truncate); (2b) blank / digit runs of length 2^k-1, 2^k, 2^k+1 (k = 8..20) and long texts / pictures (filler of every length 0..=1100, 6000 in thorough) with a 2-, 3- or 4-byte character across every byte offset, after a valid prefix with a wrong or right separator; (3) every row of the {}-row operation table x pool values x extreme scalars (i32::MIN, u32::MAX, NaN, infinities, subnormals, 1e300) and proptest-generated scalars. Run under the release profile and under a profile with overflow checks and debug assertions. Non-trivial = the picture compiles and the input is non-empty, or a row with an extreme scalar operand.", INPUT_ALPHABET.len(), FIXED_PICTURES.len(), ops.len()),
         assumptions: vec![
             "unsafe fns and the documented-to-panic WeekDay::from(usize) / Month::from(usize) are outside the quantifier".into(),
             "formatting is observed through write!(&mut String, ..); ToString::to_string() on a Display that reports an error panics inside std by std's contract and is never called".into(),
